@@ -359,6 +359,9 @@ def r4_node_typestate(ctx):
                             di += 1
                             if a and a[0] == 'bool' and a[1][0] == 'call' and a[1][1].endswith('::is_null') and any(x[0] == 'field' and x[2] == 'next' for x in walk(a[1])):
                                 last = (idx, blk, a[2])
+                    if last is None and _yielded_with_successor(ctx, f, kb):
+                        # the walk lives in a private iterator whose `next` yields a node only after finding its successor non-null
+                        continue
                     if last is None or last[2] is not False:
                         ok = False
                         continue
@@ -380,6 +383,55 @@ def r4_node_typestate(ctx):
                 ctx.check(ok, 'sentinel-never-freed:%s' % key.split('::')[-1],
                           '%s: a node is destroyed only after it was found to have a successor (it is not the tail sentinel, which the list still owns): the end-of-list test precedes every inspection that can lead to a removal'
                           % short(key), f.where(kb))
+
+
+def _yielded_with_successor(ctx, f, kb):
+    """the box destroyed in block kb was rebuilt (LocalBox::from_raw_in) from a pointer that a local Iterator yielded (directly via
+    `next`, or through `find`, which hands on an item of `next` unchanged), and every path of that iterator's `next` that returns
+    Some(p) has tested `(*p).next.is_null()` negative before: a yielded node is never the tail sentinel"""
+    P = ctx.P
+    rb = [c for c in f.calls() if c.name == LB + '::from_raw_in' and f.dominates(c.b, kb)]
+    if not rb:
+        return False
+    t = peel(f.expr_operand(rb[-1].args[0], rb[-1].b, 'T'))
+    if not (t[0] == 'field' and t[2] == '0' and peel(t[1])[0] == 'as' and peel(t[1])[2] == 'Some'):
+        return False
+    src = peel(peel(t[1])[1])
+    if not (src[0] == 'call' and src[1] in ('std::iter::Iterator::find', 'std::iter::Iterator::next') or (src[0] == 'call' and is_next(src))):
+        return False
+    sites = [c for c in f.calls() if c.name == src[1] and c.argtys]
+    if len(sites) != 1:
+        return False
+    from .engine.core import _deref_ty
+    ity = strip_generics(_deref_ty(sites[0].argtys[0]))
+    gs = [g for g in P.impls_of_trait_method('std::iter::Iterator', 'next') if g.self_adt and strip_generics(g.self_adt) == ity]
+    if len(gs) != 1:
+        return False
+    g = gs[0]
+    ctx.touch(g)
+    n = 0
+    for path, outcome, decs in fn_paths(ctx, g):
+        if outcome != 'return':
+            continue
+        r = path_ret_resolved(g, path)
+        r = peel(r) if r is not None else None
+        if r is None or r[0] != 'agg':
+            return False
+        if str(r[1]).endswith('::None'):
+            continue
+        if not str(r[1]).endswith('::Some') or not r[2]:
+            return False
+        n += 1
+        item = canon(peel(r[2][0]))
+        guarded = False
+        for _, a in path_atoms(g, path, decs):
+            if a and a[0] == 'bool' and a[2] is False and a[1][0] == 'call' and a[1][1].endswith('::is_null') and a[1][2]:
+                sub = peel(a[1][2][0])
+                if sub[0] == 'field' and sub[2] == 'next' and canon(peel_c(sub[1])) == item:
+                    guarded = True
+        if not guarded:
+            return False
+    return n >= 1
 
 
 def _is_node_ptr(t):
